@@ -190,16 +190,19 @@ impl ForExpressionEvaluator {
     self.feel_iterator.add_list(name, values);
   }
   ///
-  pub fn add_range(&mut self, name: Name, range_start: Value, range_end: Value) {
+  /// Returns `false` when the range is not iterable (its ends are not integers).
+  pub fn add_range(&mut self, name: Name, range_start: Value, range_end: Value) -> bool {
     if let Value::Number(start) = range_start {
       if let Value::Number(end) = range_end {
         if let Some(i_start) = start.to_isize() {
           if let Some(i_end) = end.to_isize() {
             self.feel_iterator.add_range(name, i_start, i_end);
+            return true;
           }
         }
       }
     }
+    false
   }
   ///
   pub fn evaluate(&mut self, scope: &Scope, evaluator: &Evaluator) -> Values {
